@@ -1,6 +1,6 @@
 #!/bin/bash
 # try_mutant.sh <seeded dir> <check id>...: apply the patch to /repo, run the quick checks, always revert.
-D=$1; shift
+D=$(realpath $1); shift
 cd /repo && git status --porcelain | grep -q . && { echo "/repo not clean"; exit 2; }
 git -C /repo apply $D/patch.diff || { echo "patch does not apply"; exit 2; }
 trap 'git -C /repo reset -q --hard HEAD; echo reverted' EXIT
